@@ -854,3 +854,25 @@ theorem seqLoop_list_first (k : List α) (af : String) (rest : List String) (t :
   rfl
 end seq3
 end TV.Filter
+
+namespace TV.Filter
+section dirac
+variable {α : Type} [Field α]
+/-- the window of the Dirac kernel `[0,1,0]`: only the centre sample weighs -/
+theorem dirac_window (v : List (Option α)) (i : Nat) (x : α) (hx : v[i]? = some (some x)) :
+    wsum (window v [0, 1, 0] 1 i) = x ∧ wtot (window v [0, 1, 0] 1 i) = 1 := by
+  have hi : i < v.length := by
+    rcases Nat.lt_or_ge i v.length with h | h
+    · exact h
+    · rw [List.getElem?_eq_none h] at hx; simp at hx
+  have hc : val? v 1 i (0 + 1) = some x := by
+    unfold val?
+    have e : i + 1 - (0 + 1) = i := by omega
+    rw [e, if_pos ⟨by omega, hi⟩, hx]; rfl
+  unfold window
+  rw [windowFrom_cons, windowFrom_cons, windowFrom_cons, windowFrom_nil, hc]
+  cases val? v 1 i 0 <;> cases val? v 1 i (0 + 1 + 1) <;>
+    simp [wsum_cons, wtot_cons, wsum_nil, wtot_nil]
+
+end dirac
+end TV.Filter
